@@ -89,7 +89,7 @@ void EGioNParse (char *input,
 	cur = input;
 	while(cur && (*argc) < max_argc)
 	{
-		cc = __EGiobuff[(int)(*cur)];
+		cc = __EGiobuff[(unsigned char)(*cur)];	/* one entry per byte value */
 		switch(cc)
 		{
 			case '1':
@@ -168,7 +168,7 @@ void EGioParse (char **next,
 	cur = *current;
 	while(cur)
 	{
-		cc = __EGiobuff[(int)(*cur)];
+		cc = __EGiobuff[(unsigned char)(*cur)];	/* one entry per byte value */
 		switch(cc)
 		{
 			case '1':
